@@ -190,6 +190,15 @@ def check_C14(ctx, unit):
                     x = x.children[0]
                 conv = (x.get("t") or "?") if x.kind in ("CStyleCastExpr", "CXXStaticCastExpr", "CXXFunctionalCastExpr") else "<no conversion>"
                 narrowing.setdefault(conv, []).append((f, h))
+            # the same for a reduction written directly inside a subscript (`table[hasher(key) % capacity]`)
+            for n in subs:
+                m_ = _modulus(n.children[1])
+                if m_ and not (std_unwrap(n.children[1]).kind == "DeclRefExpr"):
+                    x = m_[0]
+                    while x.kind in ("ImplicitCastExpr", "ParenExpr") and x.children:
+                        x = x.children[0]
+                    conv = (x.get("t") or "?") if x.kind in ("CStyleCastExpr", "CXXStaticCastExpr", "CXXFunctionalCastExpr") else "<no conversion>"
+                    narrowing.setdefault(conv, []).append((f, m_[0]))
             # --- size accounting
             def transfer2(n, s):
                 c, inc, d, dec = s
